@@ -239,3 +239,64 @@ func sortedObjs(m map[types.Object]Val) []types.Object {
 	})
 	return ks
 }
+
+// holdsRefs reports whether the memory a value of type t points to can contain references.
+func (e *Eng) holdsRefs(t types.Type) bool {
+	if t == nil {
+		return true
+	}
+	isRef := func(x types.Type) bool { k := e.kindOf(x); return k == KRef || k == KSlice }
+	switch u := derefType(t).Underlying().(type) {
+	case *types.Slice:
+		return isRef(u.Elem())
+	case *types.Array:
+		return isRef(u.Elem())
+	case *types.Struct:
+		for i := 0; i < u.NumFields(); i++ {
+			if isRef(u.Field(i).Type()) {
+				return true
+			}
+		}
+		return false
+	case *types.Basic:
+		return false
+	}
+	return true
+}
+
+// refOrigin: before anything has been forgotten on this path, every reference
+// read from memory is either pre-existing (>= 0) or one of this path's allocations.
+func (e *Eng) refOrigin(st *State, ref string) {
+	if st.tainted || isLiteralTerm(ref) || strings.Contains(ref, "q.") {
+		return
+	}
+	alts := []string{"(>= " + ref + " 0)"}
+	for _, a := range st.allocs {
+		alts = append(alts, "(= "+ref+" "+a+")")
+	}
+	if len(alts) == 1 {
+		e.assumeOnce(st, alts[0])
+	} else {
+		e.assumeOnce(st, "(or "+strings.Join(alts, " ")+")")
+	}
+}
+
+// isAccessorPkg: methods of the go/types, go/ast, ... libraries are modelled as
+// uninterpreted accessors of the value they are called on (embedding is not unfolded).
+func isAccessorPkg(fn *types.Func) bool {
+	if fn == nil || fn.Pkg() == nil {
+		return false
+	}
+	_, ok := accessorPkgs[fn.Pkg().Path()]
+	return ok
+}
+
+// repoGlobal reports whether a global-variable heap key belongs to a package of /repo.
+func repoGlobal(n string) bool {
+	for _, p := range []string{"main.", "literals.", "ctrlflow.", "linker.", "ssa2ast.", "asthelper."} {
+		if strings.HasPrefix(n, "|H0:G:"+p) {
+			return true
+		}
+	}
+	return false
+}
